@@ -141,6 +141,7 @@ type simNode struct {
 	serveErr  error
 	inc       int // incarnation counter
 	abandonedInc int
+	dead      bool // could not be restarted
 
 	drivers map[uint64]*driver
 
@@ -165,6 +166,7 @@ type world struct {
 	blocked map[[2]int]bool
 	addr    map[string]int
 
+	ghost   int // index of the node that dies inside the current transition (-1: none)
 	clock   int // logical clock: number of transitions executed
 	tasks   []*simTask
 	nextUpd int
@@ -349,6 +351,7 @@ func newWorld(opt worldOpt) *world {
 	w := &world{
 		opt:     opt,
 		root:    vkScratch("sim"),
+		ghost:   -1,
 		connSeq: map[[2]int]int{},
 		blocked: map[[2]int]bool{},
 		addr:    map[string]int{},
@@ -547,6 +550,12 @@ func (n *simNode) start() error {
 	n.fsm = newRecFSM(n)
 	r, err := New(w.raftOptions(), n.fsm, n.dir)
 	if err != nil {
+		if n.inc > 0 {
+			// restart on a directory the node itself left behind
+			w.led.onStartFailed(n, err)
+			n.dead = true
+			return nil
+		}
 		return fmt.Errorf("New(%s): %v", n.dir, err)
 	}
 	r.dialFn = w.dialer(n.idx)
@@ -604,6 +613,12 @@ func (n *simNode) start() error {
 	}
 	select {
 	case <-done:
+		if n.inc > 1 {
+			w.led.onStartFailed(n, fmt.Errorf("Serve returned at start: %v", n.serveErr))
+			w.onServeExit(n)
+			n.dead = true
+			return nil
+		}
 		return fmt.Errorf("Serve returned at start: %v", n.serveErr)
 	default:
 	}
@@ -639,8 +654,10 @@ func (n *simNode) stop() error {
 	for _, c := range w.conns {
 		if c.cli == n.idx || c.srv == n.idx {
 			c.closeLocked()
-			if c.cli == n.idx {
+			if c.srv == n.idx {
 				c.discSent = true
+				c.c2s.Reset()
+				c.held.Reset()
 			}
 		}
 	}
@@ -688,7 +705,6 @@ func (w *world) close() {
 // stepLoop releases the raft goroutine of n for exactly one iteration of its
 // select loop.  feed (may be nil) makes exactly one input ready.
 func (n *simNode) stepLoop(feed func() error) error {
-	n.points = n.points[:0]
 	n.loopGate.release(true)
 	if feed != nil {
 		if err := feed(); err != nil {
@@ -696,9 +712,63 @@ func (n *simNode) stepLoop(feed func() error) error {
 		}
 	}
 	if err := n.w.waitQuiet(); err != nil {
+		if rerr := n.w.rescueStuck(); rerr == nil {
+			return n.afterStep()
+		}
 		return err
 	}
 	return n.afterStep()
+}
+
+// rescueStuck handles a step that did not return to a parked state because a
+// panic is unwinding some node's Serve (assertion, runtime error re-panicked by
+// recoverErr): Serve's deferred wg.Wait() waits for the gated FSM goroutine.
+// All hooks of such a node are opened; if its Serve then returns with a panic
+// the node is recorded as having terminated itself (oracle L-alive) and the
+// world continues without it.
+func (w *world) rescueStuck() error {
+	rescued := false
+	for _, n := range w.nodes {
+		if !n.up {
+			continue
+		}
+		w.mu.Lock()
+		running := n.loopGate.running
+		w.mu.Unlock()
+		if !running {
+			continue
+		}
+		// the raft goroutine neither parked nor finished
+		w.mu.Lock()
+		n.free = true
+		var rel []*gate
+		for _, g := range []*gate{n.fsmGate, n.snapGate} {
+			if g.parked {
+				rel = append(rel, g)
+			}
+		}
+		w.mu.Unlock()
+		for _, g := range rel {
+			g.release(false)
+		}
+		t := time.NewTimer(2 * time.Second)
+		select {
+		case <-n.serveDone:
+			t.Stop()
+			w.mu.Lock()
+			w.stuck = false
+			w.mu.Unlock()
+			w.onServeExit(n)
+			n.abandon()
+			rescued = true
+		case <-t.C:
+			return errSimStuck
+		}
+	}
+	if !rescued {
+		return errSimStuck
+	}
+	return w.waitQuiet()
 }
 
 // afterStep checks whether the node terminated by itself (removed from the
@@ -862,8 +932,10 @@ func (w *world) onServeExit(n *simNode) {
 	for _, c := range w.conns {
 		if c.cli == n.idx || c.srv == n.idx {
 			c.closeLocked()
-			if c.cli == n.idx {
+			if c.srv == n.idx {
 				c.discSent = true
+				c.c2s.Reset()
+				c.held.Reset()
 			}
 		}
 	}
